@@ -63,6 +63,11 @@ class Harness(object):
         sched.S.sleep(2)  # virtual time: a slow method that finishes by itself
         return token
 
+    def longnap(self, token):
+        self.execs[token] = self.execs.get(token, 0) + 1
+        sched.S.sleep(40)  # a method that takes 40 virtual seconds (80 polls of the serving loop): the reply is still the reply to this request
+        return token
+
     def slow(self, token):
         self.execs[token] = self.execs.get(token, 0) + 1
         self.gates[token].wait()
@@ -140,6 +145,8 @@ class Harness(object):
                         self.results[key] = ("protocol-error", ex.args[0][0] if ex.args and isinstance(ex.args[0], tuple) else None, str(ex))
                 elif kind == "nap":
                     self.results[key] = ("val", p.nap(tok))
+                elif kind == "longnap":
+                    self.results[key] = ("val", p.longnap(tok))
                 elif kind == "slow":
                     self.gates[tok] = sched.Event() if tok not in self.gates else self.gates[tok]
                     self.results[key] = ("val", p.slow(tok))
@@ -179,6 +186,7 @@ class Harness(object):
         srv.register_function(self.slow, "slow")
         srv.register_function(self.sysexit, "sysexit")
         srv.register_function(self.nap, "nap")
+        srv.register_function(self.longnap, "longnap")
         other = None
         if self.other_pool:
             # a second, independent pool alive in the same process (here: the server's notification pool) with an idle worker
@@ -262,7 +270,7 @@ class Harness(object):
                     if not inflight:
                         v.append(("C12/request-failed-on-a-serving-server/%s" % kind, "%s raised %s: %s" % (where, res[1], res[2])))
                     continue
-                if kind in ("call", "slow", "nap"):
+                if kind in ("call", "slow", "nap", "longnap"):
                     if res != ("val", tok):
                         v.append(("C12/reply-is-not-the-response-to-this-request", "%s got %r, expected %r" % (where, res, tok)))
                     if self.execs.get(tok, 0) != 1:
@@ -335,6 +343,9 @@ def extra_harnesses(tier):
     for n in ((70,) if tier == "quick" else (35, 70, 130)):
         h.append(spec("pooled", None, "tcp", ((("nap",),) * n), "normal") + (0, {"F": 0}))
     h.append(spec("simple", None, "tcp", ((("nap",),) * 40), "normal") + (0, {"F": 0}))
+    for server, pool in (("simple", None), ("pooled", (1, 1))):
+        for family in ("tcp", "unix"):
+            h.append(spec(server, pool, family, (("longnap", "call"),), "normal") + (1,))
     h.append(spec("pooled", (2, 0), "unix", ((("call", "nap"),) * 12), "normal") + (0, {"F": 0}))
     h.append(spec("pooled", (1, 0), "tcp", ((("nap",),) * 3), "normal") + ((1 if tier == "thorough" else 0),))
     return h
@@ -393,7 +404,7 @@ META = {
     "serial_legs": ("schedules",),
     "technique": "stateless model checking of the real servers, request handler and clients over an in-memory network whose blocking operations are "
     "scheduling points: exhaustive schedule enumeration with iterative preemption bounding, non-termination decided by the scheduler's deadlock verdict",
-    "rule": "additionally: servers next to a second started pool (their notification pool), 70 (thorough 35/70/130) simultaneous clients of a slow method on "
+    "rule": "additionally: a method taking 40 virtual seconds over TCP and Unix sockets (socket timeouts are honoured in virtual time); servers next to a second started pool (their notification pool), 70 (thorough 35/70/130) simultaneous clients of a slow method on "
     "the default request pool, 40 on a plain server, 12 x (call, slow call) on a (2,0) pool over Unix sockets - default hand-over order at blocking points (F=0), no preemption; 3 clients of the slow method on a (1,0) pool with the ordinary ladder; harness = server (Simple, Pooled with default pool (30,0) or user pools (1,1) (1,0) (2,0)) x listener (TCP, Unix) x client programs (1-2 clients "
     "(thorough 3), 1-2 requests each from {call, notification, batch, malformed body, truncated body with half-close, failing method, method raising SystemExit, gated slow method}) x life-cycle (serve/shutdown/"
     "server_close, server_close without serving, double shutdown and close, shutdown with a gated request in flight); every schedule up to the per-harness "
